@@ -77,6 +77,25 @@
 //	            a constant sub-slice of the wrong width (binary.LittleEndian: of a smaller width) are
 //	            rejected
 //
+// text        (frame text family; semantics and TRUSTED library readings: Translate/GoSemText.v)
+//	            strings as byte lists: len(s), s + t, ==, s[i], s[lo:hi] / s[lo:] / s[:hi] with constant or
+//	            non-constant bounds; a[lo:hi] of a [N]byte array with non-constant bounds as the []byte
+//	            argument of a text library function. THE RUN-TIME PANICS of these operations ARE MODELLED:
+//	            a function containing one returns option (None = panic, like the `_ = b[k]` check) and
+//	            the test `if negb (go_index_ok ..) / (go_slice_ok ..) then None else ...` is printed in
+//	            front of the statement whose expressions contain the operation; such an operation in
+//	            the right operand of && / || or inside a loop is an error.
+//	            library calls: fmt.Sprintf("%0wX" / "%0wx", unsigned) (no other format), strconv.Itoa,
+//	            hex.EncodeToString, strings.ToUpper (ASCII reading) in expressions;
+//	            `v, err := strconv.ParseUint(s, const, const)` / strconv.Atoi(s) / hex.DecodeString(s)
+//	            (the pair (value, error); a variable that already exists in the scope is assigned; the
+//	            []byte result is a fresh slice), `err != nil` / `err == nil` on such a local;
+//	            `parts := strings.Split(s, "<one byte constant>")` with parts used only as len(parts) and
+//	            parts[k] (index panic modelled); `a, b := e1, e2` with all variables new;
+//	            `*f = v` through the written pointer receiver wherever it occurs (the final value of *f is
+//	            returned with the results, so an assignment on the success paths only is visible as
+//	            the unchanged parameter on the error paths).
+//
 // Every integer operation is emitted at the static type go/types reports for that expression,
 // against the operators of coq/theories/Translate/GoSem.v, every floating-point operation against
 // those of coq/theories/Translate/GoSemFloat.v (see those files' headers for the reading of Go's
@@ -195,6 +214,9 @@ var whitelist = []struct{ pkg, recv, name string }{
 	{"pkg/descriptor", "Signal", "UnmarshalValueDescription"},
 	{"pkg/dbc", "Identifier", "Validate"},
 	{"internal/identifiers", "", "IsCamelCase"},
+	{"", "Frame", "String"},
+	{"", "Frame", "UnmarshalString"},
+	{"", "Frame", "JSON"},
 }
 
 // ---------------------------------------------------------------------------- errors
@@ -214,6 +236,7 @@ type translator struct {
 	cur     *fn               // function being processed (for messages)
 
 	usesFloat bool // a float type was classified: Translated.v imports Translate.GoSemFloat
+	usesText  bool // a text library function / string operation of GoSemText.v is used: imports Translate.GoSemText
 }
 
 func (t *translator) failf(pos token.Pos, format string, a ...interface{}) {
@@ -428,7 +451,9 @@ func (t *translator) zero(pos token.Pos, g gtype) string {
 		return "bytes_nil"
 	case kLen:
 		return "0"
-	case kString, kList:
+	case kString:
+		return "(@nil Z)"
+	case kList:
 		return "[]"
 	case kBasicTy:
 		t.failf(pos, "zero value of go/types.Type")
@@ -686,6 +711,26 @@ func (t *translator) analyse(key string, from token.Pos) *fn {
 			}
 		case *ast.FuncLit:
 			t.failf(x.Pos(), "function literal")
+		case *ast.IndexExpr:
+			// s[i] on a string, parts[k] on a []string: the index panic is modelled (GoSemText.v)
+			if tv, ok := info.Types[x.X]; ok && tv.Type != nil {
+				switch u := tv.Type.Underlying().(type) {
+				case *types.Basic:
+					if u.Info()&types.IsString != 0 && tv.Value == nil {
+						f.partial = true
+					}
+				case *types.Slice:
+					if b, ok := u.Elem().Underlying().(*types.Basic); ok && b.Info()&types.IsString != 0 {
+						f.partial = true
+					}
+				}
+			}
+		case *ast.SliceExpr:
+			if tv, ok := info.Types[x.X]; ok && tv.Type != nil {
+				if b, ok := tv.Type.Underlying().(*types.Basic); ok && b.Info()&types.IsString != 0 {
+					f.partial = true
+				}
+			}
 		case *ast.AssignStmt:
 			if isBoundsCheck(x) {
 				f.partial = true
@@ -749,6 +794,22 @@ func (t *translator) analyse(key string, from token.Pos) *fn {
 			}
 			if _, ok := intrinsicOf(callee); ok {
 				return true // semantics in GoSem*.v; the arguments are ordinary expressions
+			}
+			if _, ok := textLibOf(callee); ok {
+				t.usesText = true
+				for _, a := range x.Args {
+					// a[lo:hi] of an array with a non-constant bound as an argument: its panic is modelled
+					if sl, ok := ast.Unparen(a).(*ast.SliceExpr); ok {
+						if _, isArr := info.TypeOf(sl.X).Underlying().(*types.Array); isArr {
+							for _, bnd := range []ast.Expr{sl.Low, sl.High} {
+								if bnd != nil && info.Types[bnd].Value == nil {
+									f.partial = true
+								}
+							}
+						}
+					}
+				}
+				return true
 			}
 			if o, ok := oracleOf(callee); ok {
 				f.addOracle(o)
@@ -907,6 +968,12 @@ type fctx struct {
 	// optVars: locals of type *S (range variables over a []*S, results of calls): option S
 	optVars map[types.Object]bool
 	loops   []string // enclosing loops, innermost last: the tuple of the loop's state variables
+	// guards: the run-time panic conditions (Coq bools that must hold) of the expressions translated so far
+	// for the CURRENT statement (string index / slice, array slice with non-constant bounds, []string index);
+	// block() prints them in front of the statement: if negb (g1 && g2) then None else ...
+	guards []string
+	// strLists: locals bound to strings.Split(...): the list of the pieces (GoSemText.v)
+	strLists map[types.Object]bool
 }
 
 func pad(n int) string { return strings.Repeat(" ", n) }
@@ -1146,6 +1213,144 @@ func intrinsicOf(f *types.Func) (intrinsic, bool) {
 	return in, ok
 }
 
+// textLibs: the string / text-conversion library functions with a fixed reading in Translate/GoSemText.v
+// (part of the trusted base: see that file's header for which Go behaviour each name stands for).
+// special: "split" (strings.Split(s, "<one byte>"): only as `x := strings.Split(...)`), "sprintf"
+// (fmt.Sprintf("%0wX" / "%0wx", unsigned)).
+type textLib struct {
+	coq     string
+	params  []gtype
+	results []gtype
+	special string
+}
+
+var (
+	gInt = gtype{k: kInt, bits: 64, signed: true}
+	gStr = gtype{k: kString}
+	gErr = gtype{k: kErr}
+)
+
+var textLibs = map[string]textLib{
+	"strconv.Itoa":                {"go_strconv_Itoa", []gtype{gInt}, []gtype{gStr}, ""},
+	"encoding/hex.EncodeToString": {"go_hex_EncodeToString", []gtype{gByts}, []gtype{gStr}, ""},
+	"strings.ToUpper":             {"go_strings_ToUpper", []gtype{gStr}, []gtype{gStr}, ""},
+	"strconv.ParseUint":           {"go_strconv_ParseUint", []gtype{gStr, gInt, gInt}, []gtype{gU64, gErr}, ""},
+	"strconv.Atoi":                {"go_strconv_Atoi", []gtype{gStr}, []gtype{gInt, gErr}, ""},
+	"encoding/hex.DecodeString":   {"go_hex_DecodeString", []gtype{gStr}, []gtype{gByts, gErr}, ""},
+	"strings.Split":               {"go_strings_Split1", nil, nil, "split"},
+	"fmt.Sprintf":                 {"", nil, nil, "sprintf"},
+}
+
+func textLibOf(f *types.Func) (textLib, bool) {
+	k, ok := libKey(f)
+	if !ok {
+		return textLib{}, false
+	}
+	tl, ok := textLibs[k]
+	return tl, ok
+}
+
+var sprintfHex = regexp.MustCompile(`^%0([1-9][0-9]?)([Xx])$`)
+
+// guard: record a run-time panic condition of the statement being translated.
+func (c *fctx) guard(pos token.Pos, g string) {
+	if !c.f.partial {
+		c.t.failf(pos, "internal: operation with a modelled panic in a function not marked partial")
+	}
+	if len(c.loops) > 0 {
+		c.t.failf(pos, "operation that may panic (string index/slice, array slice with non-constant bounds) inside a loop")
+	}
+	c.guards = append(c.guards, g)
+}
+
+// textArg: an argument of a text library function at parameter type want. A []byte argument may be a
+// slice a[lo:hi] of a [N]byte array with non-constant bounds: its slice-bounds panic is modelled (guard).
+func (c *fctx) textArg(a ast.Expr, want gtype, what string) string {
+	t := c.t
+	if want.k == kBytes {
+		if sl, ok := ast.Unparen(a).(*ast.SliceExpr); ok {
+			if g := c.typeOf(sl.X); g.k == kArray {
+				si := c.sliceParts(sl, true)
+				if !si.constant {
+					c.guard(a.Pos(), fmt.Sprintf("(go_slice_ok %s %s %d)", si.lo, si.hi, si.g.n))
+				}
+				return fmt.Sprintf("(bytes_slice %s %s %s)", si.base, si.lo, si.hi)
+			}
+		}
+	}
+	if have := c.typeOf(a); !have.same(want) || have.ptr {
+		t.failf(a.Pos(), "argument of %s has type %s", what, c.info.TypeOf(a))
+	}
+	return c.expr(a)
+}
+
+// textCall: the application of a text library function (not "split").
+func (c *fctx) textCall(x *ast.CallExpr, callee *types.Func, tl textLib) string {
+	t := c.t
+	what := callee.Pkg().Name() + "." + callee.Name()
+	if x.Ellipsis.IsValid() {
+		t.failf(x.Pos(), "call of %s with ...", what)
+	}
+	if tl.special == "sprintf" {
+		if len(x.Args) != 2 {
+			t.failf(x.Pos(), "fmt.Sprintf with %d arguments (only Sprintf(\"%%0wX\" / \"%%0wx\", unsigned) is in the subset)", len(x.Args))
+		}
+		ftv := c.info.Types[x.Args[0]]
+		if ftv.Value == nil || ftv.Value.Kind() != constant.String {
+			t.failf(x.Pos(), "fmt.Sprintf with a non-constant format")
+		}
+		m := sprintfHex.FindStringSubmatch(constant.StringVal(ftv.Value))
+		if m == nil {
+			t.failf(x.Pos(), "fmt.Sprintf format %q is outside the subset (only %%0wX / %%0wx)", constant.StringVal(ftv.Value))
+		}
+		if a := c.typeOf(x.Args[1]); a.k != kInt || a.signed || a.ptr {
+			t.failf(x.Args[1].Pos(), "fmt.Sprintf(%q) of %s (only unsigned integers)", constant.StringVal(ftv.Value), c.info.TypeOf(x.Args[1]))
+		}
+		name := map[string]string{"X": "go_fmt_hex_upper", "x": "go_fmt_hex_lower"}[m[2]]
+		return fmt.Sprintf("(%s %s %s)", name, m[1], c.expr(x.Args[1]))
+	}
+	if tl.special != "" {
+		t.failf(x.Pos(), "%s is only accepted as `x := %s(s, \"<one byte>\")`", what, what)
+	}
+	if len(x.Args) != len(tl.params) {
+		t.failf(x.Pos(), "call of %s with %d arguments", what, len(x.Args))
+	}
+	parts := []string{tl.coq}
+	for i, a := range x.Args {
+		if i > 0 && callee.Name() == "ParseUint" && c.info.Types[a].Value == nil {
+			t.failf(a.Pos(), "strconv.ParseUint with a non-constant base / bit size")
+		}
+		parts = append(parts, c.textArg(a, tl.params[i], what))
+	}
+	return "(" + strings.Join(parts, " ") + ")"
+}
+
+// errNilTest: `err == nil` / `err != nil` on a local error variable (err_nil = true).
+func (c *fctx) errNilTest(x *ast.BinaryExpr) (string, bool) {
+	if x.Op != token.EQL && x.Op != token.NEQ {
+		return "", false
+	}
+	v, n := x.X, x.Y
+	if c.info.Types[v].IsNil() {
+		v, n = n, v
+	}
+	if !c.info.Types[n].IsNil() {
+		return "", false
+	}
+	id, ok := ast.Unparen(v).(*ast.Ident)
+	if !ok {
+		return "", false
+	}
+	name, ok := c.vars[c.info.Uses[id]]
+	if !ok || c.typeOf(id).k != kErr {
+		return "", false
+	}
+	if x.Op == token.EQL {
+		return name, true
+	}
+	return "(negb " + name + ")", true
+}
+
 // unsafeLoad recognises  *(*T)(unsafe.Pointer(&x))  with x a local variable or parameter: the
 // reinterpretation of the first sizeof(T) bytes of x (little-endian host: the LOW bits).
 // Accepted (x's type -> T): uint64 -> float32, uint32 -> float32, uint64 -> float64,
@@ -1231,7 +1436,7 @@ func (c *fctx) sliceParts(x *ast.SliceExpr, allowVar bool) sliceInfo {
 		t.failf(x.Pos(), "3-index slice expression")
 	}
 	si := sliceInfo{g: c.typeOf(x.X), constant: true}
-	if si.g.k != kBytes && si.g.k != kArray {
+	if si.g.k != kBytes && si.g.k != kArray && si.g.k != kString {
 		t.failf(x.Pos(), "slicing of %s", c.info.TypeOf(x.X))
 	}
 	si.base = c.expr(x.X)
@@ -1323,6 +1528,9 @@ func (c *fctx) expr(e ast.Expr) string {
 			t.failf(x.Pos(), "nil outside a return of type error")
 		}
 		o := c.info.Uses[x]
+		if c.strLists[o] {
+			t.failf(x.Pos(), "the result of strings.Split used other than as len(x) / x[k]")
+		}
 		if n, ok := c.vars[o]; ok {
 			return n
 		}
@@ -1362,8 +1570,29 @@ func (c *fctx) expr(e ast.Expr) string {
 		}
 		t.failf(x.Pos(), "unary operator %s on %s", x.Op, c.info.TypeOf(e))
 	case *ast.BinaryExpr:
+		if s, ok := c.errNilTest(x); ok {
+			return s
+		}
 		return c.binary(x.Pos(), x.Op, c.typeOf(e), x.X, x.Y, c.expr(x.X))
 	case *ast.IndexExpr:
+		if id, ok := ast.Unparen(x.X).(*ast.Ident); ok && c.strLists[c.info.Uses[id]] {
+			// parts[k] on the result of strings.Split: index panic modelled
+			if i := c.typeOf(x.Index); i.k != kInt {
+				t.failf(x.Index.Pos(), "index of non-integer type")
+			}
+			l, ix := c.vars[c.info.Uses[id]], c.expr(x.Index)
+			c.guard(x.Pos(), fmt.Sprintf("(go_index_ok %s (list_len %s))", ix, l))
+			return fmt.Sprintf("(go_strlist_get %s %s)", l, ix)
+		}
+		if a := c.typeOf(x.X); a.k == kString {
+			// s[i]: the byte; index panic modelled
+			if i := c.typeOf(x.Index); i.k != kInt {
+				t.failf(x.Index.Pos(), "index of non-integer type")
+			}
+			sv, ix := c.expr(x.X), c.expr(x.Index)
+			c.guard(x.Pos(), fmt.Sprintf("(go_index_ok %s (bytes_len %s))", ix, sv))
+			return fmt.Sprintf("(bytes_get %s %s)", sv, ix)
+		}
 		if c.isTypesTyp(x.X) {
 			if i := c.typeOf(x.Index); i.k != kInt {
 				t.failf(x.Index.Pos(), "index of non-integer type")
@@ -1385,6 +1614,12 @@ func (c *fctx) expr(e ast.Expr) string {
 		}
 		return fmt.Sprintf("(data_get %s %s)", c.expr(x.X), c.expr(x.Index))
 	case *ast.SliceExpr:
+		if g := c.typeOf(x.X); g.k == kString {
+			// s[lo:hi] on a string: slice-bounds panic modelled
+			si := c.sliceParts(x, true)
+			c.guard(x.Pos(), fmt.Sprintf("(go_slice_ok %s %s (bytes_len %s))", si.lo, si.hi, si.base))
+			return fmt.Sprintf("(bytes_slice %s %s %s)", si.base, si.lo, si.hi)
+		}
 		if g := c.typeOf(x.X); g.k != kBytes {
 			t.failf(x.Pos(), "slicing of %s in an expression (only as the source of copy or the argument of a library reader)", c.info.TypeOf(x.X))
 		}
@@ -1427,6 +1662,9 @@ func (c *fctx) expr(e ast.Expr) string {
 			if len(x.Args) != 1 {
 				t.failf(x.Pos(), "len with %d arguments", len(x.Args))
 			}
+			if id, ok := ast.Unparen(x.Args[0]).(*ast.Ident); ok && c.strLists[c.info.Uses[id]] {
+				return fmt.Sprintf("(list_len %s)", c.vars[c.info.Uses[id]])
+			}
 			switch a := c.typeOf(x.Args[0]); a.k {
 			case kBytes:
 				return fmt.Sprintf("(bytes_len %s)", c.expr(x.Args[0]))
@@ -1461,6 +1699,12 @@ func (c *fctx) expr(e ast.Expr) string {
 		}
 		if _, ok := putIntrinsicOf(callee); ok {
 			t.failf(x.Pos(), "%s.%s used as an expression", callee.Pkg().Name(), callee.Name())
+		}
+		if tl, ok := textLibOf(callee); ok {
+			if len(tl.results) > 1 {
+				t.failf(x.Pos(), "%s.%s (value, error) used in an expression: only `v, err := ...`", callee.Pkg().Name(), callee.Name())
+			}
+			return c.textCall(x, callee, tl)
 		}
 		if o, ok := oracleOf(callee); ok {
 			if len(x.Args) != 1 {
@@ -1583,8 +1827,19 @@ func (c *fctx) conversion(x *ast.CallExpr) string {
 // op-assignments can reuse it).
 func (c *fctx) binary(pos token.Pos, op token.Token, g gtype, xe, ye ast.Expr, xs string) string {
 	t := c.t
+	nGuards := len(c.guards)
 	ys := c.expr(ye)
+	if (op == token.LAND || op == token.LOR) && len(c.guards) != nGuards {
+		t.failf(pos, "operation that may panic in the conditionally evaluated right operand of %s", op)
+	}
 	xg, yg := c.typeOf(xe), c.typeOf(ye)
+	if op == token.ADD && g.k == kString {
+		if xg.k != kString || yg.k != kString {
+			t.failf(pos, "string concatenation of non-strings")
+		}
+		t.usesText = true
+		return fmt.Sprintf("(go_string_cat %s %s)", xs, ys)
+	}
 	intOp := func() {
 		if g.k != kInt || xg.k != kInt || xg.bits != g.bits || xg.signed != g.signed {
 			t.failf(pos, "operator %s: operand/result types outside the subset", op)
@@ -1891,10 +2146,28 @@ func (c *fctx) copyStmt(call *ast.CallExpr) (name, newval string) {
 
 type cont func(ind int) string
 
+// block: the statements of list followed by the continuation k. The modelled run-time panics of
+// the FIRST statement's own expressions (c.guards) are tested in front of it.
 func (c *fctx) block(list []ast.Stmt, ind int, k cont) string {
 	if len(list) == 0 {
 		return k(ind)
 	}
+	saved := c.guards
+	c.guards = nil
+	out := c.block1(list, ind, k) // nested block() calls restore c.guards to this statement's own
+	mine := c.guards
+	c.guards = saved
+	if len(mine) > 0 {
+		none := "None"
+		if len(c.loops) > 0 {
+			c.t.failf(list[0].Pos(), "operation that may panic inside a loop")
+		}
+		out = pad(ind) + "if negb (" + strings.Join(mine, " && ") + ") then " + none + " (* run-time panic *) else (\n" + out + "\n" + pad(ind) + ")"
+	}
+	return out
+}
+
+func (c *fctx) block1(list []ast.Stmt, ind int, k cont) string {
 	t := c.t
 	rest := func(ind int) string { return c.block(list[1:], ind, k) }
 	let := func(name, val string) string {
@@ -2035,6 +2308,40 @@ func (c *fctx) block(list []ast.Stmt, ind int, k cont) string {
 			if !ok {
 				t.failf(s.Pos(), "multi-valued short variable declaration from something that is not a call")
 			}
+			if callee := calleeOf(c.info, call); callee != nil && builtinOf(c.info, call) == "" {
+				if tl, ok := textLibOf(callee); ok && len(tl.results) > 1 {
+					// v, err := strconv.ParseUint(...) etc.: the pair of GoSemText.v. A variable that already
+					// exists in this scope (err) is assigned.
+					if len(tl.results) != len(s.Lhs) {
+						t.failf(s.Pos(), "%d variables for the %d results of %s.%s", len(s.Lhs), len(tl.results), callee.Pkg().Name(), callee.Name())
+					}
+					val := c.textCall(call, callee, tl)
+					var names []string
+					for i, l := range s.Lhs {
+						id, ok := l.(*ast.Ident)
+						if !ok {
+							t.failf(l.Pos(), "short variable declaration of something that is not a variable")
+						}
+						if id.Name == "_" {
+							names = append(names, "_")
+							continue
+						}
+						if o := c.info.Defs[id]; o != nil {
+							if g := t.classify(id.Pos(), o.Type()); !g.same(tl.results[i]) {
+								t.failf(l.Pos(), "variable %s does not have the type of result %d", id.Name, i+1)
+							}
+							names = append(names, c.declare(o))
+							continue
+						}
+						n, ok := c.vars[c.info.Uses[id]]
+						if !ok || !t.classify(id.Pos(), c.info.Uses[id].Type()).same(tl.results[i]) {
+							t.failf(l.Pos(), "%s is not a local variable of the result's type", id.Name)
+						}
+						names = append(names, n)
+					}
+					return pad(ind) + "let '(" + strings.Join(names, ", ") + ") := " + val + " in\n" + rest(ind)
+				}
+			}
 			g := c.tupleCallee(call)
 			if len(g.results) != len(s.Lhs) {
 				t.failf(s.Pos(), "%d variables for the %d results of %s", len(s.Lhs), len(g.results), g.display)
@@ -2065,10 +2372,55 @@ func (c *fctx) block(list []ast.Stmt, ind int, k cont) string {
 			}
 			return pad(ind) + "let '(" + strings.Join(names, ", ") + ") := (" + val + ") in\n" + rest(ind)
 		}
+		if len(s.Lhs) > 1 && len(s.Lhs) == len(s.Rhs) && s.Tok == token.DEFINE {
+			// a, b := e1, e2 with ALL variables new (so no right-hand side can mention them)
+			var vals []string
+			for _, r := range s.Rhs {
+				vals = append(vals, c.expr(r))
+			}
+			var lets []string
+			for i, l := range s.Lhs {
+				id, ok := l.(*ast.Ident)
+				if !ok || id.Name == "_" || c.info.Defs[id] == nil {
+					t.failf(l.Pos(), "parallel short variable declaration with a blank or already declared variable")
+				}
+				o := c.info.Defs[id]
+				g := t.classify(id.Pos(), o.Type())
+				if g.ptr || g.k == kErr || g.k == kBytes || g.k == kLen {
+					t.failf(id.Pos(), "local variable of pointer, error or slice type")
+				}
+				lets = append(lets, pad(ind)+"let "+c.declare(o)+" := "+vals[i]+" in\n")
+			}
+			return strings.Join(lets, "") + rest(ind)
+		}
 		if len(s.Lhs) != 1 || len(s.Rhs) != 1 {
 			t.failf(s.Pos(), "assignment with more than one operand on a side")
 		}
 		lhs := s.Lhs[0]
+		if call, ok := ast.Unparen(s.Rhs[0]).(*ast.CallExpr); ok && s.Tok == token.DEFINE && builtinOf(c.info, call) == "" {
+			if ftv, isConv := c.info.Types[call.Fun]; !(isConv && ftv.IsType()) {
+				if callee := calleeOf(c.info, call); callee != nil {
+					if tl, ok := textLibOf(callee); ok && tl.special == "split" {
+						// parts := strings.Split(s, "<one byte>")
+						id, ok := lhs.(*ast.Ident)
+						if !ok || id.Name == "_" || c.info.Defs[id] == nil {
+							t.failf(s.Pos(), "strings.Split bound to something that is not a new variable")
+						}
+						if len(call.Args) != 2 || c.typeOf(call.Args[0]).k != kString {
+							t.failf(s.Pos(), "strings.Split with unexpected arguments")
+						}
+						sep := c.info.Types[call.Args[1]]
+						if sep.Value == nil || sep.Value.Kind() != constant.String || len(constant.StringVal(sep.Value)) != 1 {
+							t.failf(call.Args[1].Pos(), "strings.Split with a separator that is not a constant of one byte")
+						}
+						val := fmt.Sprintf("(%s %s %d)", tl.coq, c.expr(call.Args[0]), constant.StringVal(sep.Value)[0])
+						o := c.info.Defs[id]
+						c.strLists[o] = true
+						return let(c.declare(o), val)
+					}
+				}
+			}
+		}
 		switch s.Tok {
 		case token.DEFINE:
 			id, ok := lhs.(*ast.Ident)
@@ -2533,7 +2885,7 @@ func stmtKind(s ast.Stmt) string {
 func (t *translator) translate(f *fn) {
 	t.cur = f
 	defer func() { t.cur = nil }()
-	c := &fctx{t: t, f: f, info: f.d.pkg.TypesInfo, vars: map[types.Object]string{}, taken: map[string]bool{}, optVars: map[types.Object]bool{}}
+	c := &fctx{t: t, f: f, info: f.d.pkg.TypesInfo, vars: map[types.Object]string{}, taken: map[string]bool{}, optVars: map[types.Object]bool{}, strLists: map[types.Object]bool{}}
 	var ps []string
 	for _, o := range f.oracles {
 		c.taken[o] = true
@@ -2756,6 +3108,9 @@ func run(root, out string, only []string) (status int) {
 	b.WriteString("From Coq Require Import ZArith List Bool.\nFrom CanVerif Require Import Translate.GoSem.\n")
 	if t.usesFloat {
 		b.WriteString("From CanVerif Require Import Translate.GoSemFloat.\n")
+	}
+	if t.usesText {
+		b.WriteString("From CanVerif Require Import Translate.GoSemText.\n")
 	}
 	b.WriteString("Import ListNotations.\nOpen Scope Z_scope.\nOpen Scope bool_scope.\n\n")
 	// records: a struct may contain another one; emit in dependency order
